@@ -13,8 +13,13 @@ object; a `Baseline` object cannot be built from an empty point list (C03), so i
 point plus a list; `baseline_is_below` itself is modelled on raw point lists with Python's
 IndexError, so that its totality is a theorem with an explicit condition.
 `sorted(key=…)` / `list.sort(key=…)` is `List.mergeSort` (stable) on the key.
+The numeric literals of the source (overlap limit and the two baseline tolerances of `is_next_to`,
+the two ratios of `sort_lines`, the ratio of `baseline_is_below`, the threshold with which
+`PageXMLTextRegion.__lt__` reaches `is_horizontally_overlapping`) are NOT written here: they are
+`Generated.C15.*`, regenerated from the working tree on every run (harness/props/c15.py `translate`).
 -/
 import PagexmlModel.Basic.Err
+import PagexmlModel.Generated.C15
 
 namespace Pagexml.C15
 
@@ -99,7 +104,11 @@ def walk (b1 b2 : List Pt) : Nat → Nat → Nat → Nat → Nat → Res (Nat ×
         if b1.length = i1' ∨ b2.length = i2' then .ok (nb', no + 1)
         else walk b1 b2 fuel i1' i2' nb' (no + 1)
 
-/-- `baseline_is_below(b1, b2)`; `num_below / num_overlap > 0.5` is `2·num_below > num_overlap`.
+/-- `a / d > p / q` for `d > 0`, `q > 0`, by cross-multiplication (`r = (p, q)`) -/
+def ratioGt (a d : Int) (r : Int × Int) : Bool := decide (a * r.2 > r.1 * d)
+
+/-- `baseline_is_below(b1, b2)`; `num_below / num_overlap > p/q` (the generated ratio, `0.5` = (1, 2) at
+    the time of writing) is `num_below·q > p·num_overlap`.
     Fuel `|b1| + |b2| + 1`: one step is needed to meet the IndexError of two empty lists. -/
 def baselineIsBelow (b1 b2 : List Pt) : Res Bool :=
   match startIdx b2 b1 0 with
@@ -110,7 +119,8 @@ def baselineIsBelow (b1 b2 : List Pt) : Res Bool :=
     | .ok i2 =>
       match walk b1 b2 (b1.length + b2.length + 1) i1 i2 0 0 with
       | .error e => .error e
-      | .ok (nb, no) => if no = 0 then .error .ZeroDivisionError else .ok (decide (2 * nb > no))
+      | .ok (nb, no) =>
+        if no = 0 then .error .ZeroDivisionError else .ok (ratioGt nb no Generated.C15.baselineBelowRatio)
 
 /-! ### PageXMLTextLine.is_below / is_next_to -/
 
@@ -124,12 +134,12 @@ def isBelow (a b : Line) : Res Bool :=
 
 def isNextTo (a b : Line) : Res Bool :=
   if vOverlap a b = 0 then .ok false
-  else if hOverlap a b > 40 then .ok false
+  else if hOverlap a b > Generated.C15.nextToMaxHOverlap then .ok false
   else
     match a.bl, b.bl with
     | some x, some y =>
-      if x.top > y.bottom + 10 then .ok false
-      else if x.bottom < y.top - 10 then .ok false
+      if x.top > y.bottom + Generated.C15.nextToTolTop then .ok false
+      else if x.bottom < y.top - Generated.C15.nextToTolBottom then .ok false
       else .ok true
     | _, _ => .error .AttributeError
 
@@ -158,7 +168,8 @@ def sortLines (l1 l2 : Line) (asColumn : Bool) : Res Bool :=
       let vden := max l1.box.bottom l2.box.bottom - min l1.box.top l2.box.top
       if hden = 0 then .error .ZeroDivisionError
       else if vden = 0 then .error .ZeroDivisionError
-      else if ratLt (vDiff l1 l2) vden 1 5 && ratGt (hDiff l1 l2) hden 4 5 then
+      else if ratLt (vDiff l1 l2) vden Generated.C15.sortLinesVRatio.1 Generated.C15.sortLinesVRatio.2 &&
+          ratGt (hDiff l1 l2) hden Generated.C15.sortLinesHRatio.1 Generated.C15.sortLinesHRatio.2 then
         .ok (decide (l1.box.left < l2.box.left))
       else .ok (decide (l1.box.top < l2.box.top))
     else
@@ -180,13 +191,14 @@ structure Reg where
   box : Box
   deriving Repr, DecidableEq
 
-/-- `is_horizontally_overlapping` (threshold 0.5) for two regions with coordinates -/
+/-- `is_horizontally_overlapping` for two regions with coordinates, with the threshold that
+    `PageXMLTextRegion.__lt__` passes (the function's default unless the call says otherwise) -/
 def isHOverlapping (a b : Box) : Bool :=
   let h := overlapLen (max a.left b.left) (min a.right b.right)
   if a.width = 0 ∧ b.width = 0 then false
   else if a.width = 0 then decide (b.left ≤ a.left) && decide (a.left ≤ b.right)
   else if b.width = 0 then decide (a.left ≤ b.left) && decide (b.left ≤ a.right)
-  else ratGt h (min a.width b.width) 1 2
+  else ratGt h (min a.width b.width) Generated.C15.regionHOverlapThr.1 Generated.C15.regionHOverlapThr.2
 
 /-- `PageXMLTextRegion.__lt__` -/
 def regionLt (a b : Reg) : Bool :=
